@@ -18,8 +18,16 @@
    Floats are dyadic rationals in units of 1/64: [PFlt q] is the float q/64 (the generators only
    produce such floats), so every comparison is a comparison in Z.
 
-   Definitions only; proofs are in Proofs/Typing*.v.  [spec] and [apply] are the interface
-   C03 builds on: keep them stable. *)
+   Definitions only; proofs are in Proofs/Typing*.v.
+
+   Interface for C03 (stable): [pv], [py_eq], [err], [res] (with [Ok]/[Err], [bind], the [let?]
+   notation), [mods], [fkey], [spec], [mods_of], [with_mods], [vtype], [coerce],
+   [apply (partial : bool) (s : spec) (v : pv) : res pv], [accepts], [conforms], [total],
+   the wire encoders/decoders [e_pv d_pv e_spec d_spec].  Useful lemmas: Proofs/TypingApply.v
+   ([apply_eq]: apply = pipeline over [apply_body], the nested loops as the named functions
+   [mapM], [zipM], [fields_apply], [dyn_apply]; idempotence), Proofs/TypingDict.v (what
+   Schema.apply's per-field results and the merged dict contain), Proofs/TypingBasics.v
+   (induction principles [spec_ind'] / [pv_ind'], [py_eq] is reflexive and transitive). *)
 From Coq Require Import ZArith NArith List Bool.
 Import ListNotations.
 From PG Require Import Common.Tr.
